@@ -189,6 +189,7 @@ for _s in (Domain_get_dr, Domain_get_dk, Domain_get_length):
 @contract('pyPRISM/core/Domain.py::Domain.to_fourier', props=['C07', 'C08', 'C02'])
 def Domain_to_fourier(self, array):
     N = self._length
+    require(array.shape[0] == N)               # functions live on the domain's grid
     dr = self._dr
     dk = self._dk
     x = pointwise(N, lambda i: (2 * PI * ((i + 1) * dr) * dr) * array[i])
@@ -199,6 +200,7 @@ def Domain_to_fourier(self, array):
 @contract('pyPRISM/core/Domain.py::Domain.to_real', props=['C07', 'C08', 'C02'])
 def Domain_to_real(self, array):
     N = self._length
+    require(array.shape[0] == N)
     dr = self._dr
     dk = self._dk
     x = pointwise(N, lambda j: (((j + 1) * dk) * dk / (4 * PI * PI)) * array[j])
@@ -221,6 +223,7 @@ cases(Domain_to_real)(_tf_cases)
 def Domain_MatrixArray_to_fourier(self, marray):
     if marray.space == Space.Fourier:
         raise ValueError                          # refuses an array already in the target space
+    require(marray.data.shape[0] == self._length)
     n = marray.rank
     cols = [[None for j in range(n)] for i in range(n)]
     for i in range(n):
@@ -236,6 +239,7 @@ def Domain_MatrixArray_to_fourier(self, marray):
 def Domain_MatrixArray_to_real(self, marray):
     if marray.space == Space.Real:
         raise ValueError
+    require(marray.data.shape[0] == self._length)
     n = marray.rank
     cols = [[None for j in range(n)] for i in range(n)]
     for i in range(n):
